@@ -6,8 +6,9 @@
 //
 //  1. import "sync"            -> import sync "simrt"  (Mutex, RWMutex, WaitGroup, Once, Locker)
 //  2. go f(a)                  -> evaluated operands + simrt.Go(func(){ f(a0) })
-//  3. ch <- v, <-ch, select, close(ch), len(ch)/cap(ch), time.Sleep
-//     -> bracketed with simrt.Pre/Post (PreNB when the operation cannot block)
+//  3. ch <- v, <-ch, close(ch), len(ch)/cap(ch), time.Sleep
+//     -> bracketed with simrt.Pre/Post (PreNB when the operation cannot block);
+//     select -> simrt.Select + switch (the pick among ready clauses becomes a recorded choice)
 //  4. runtime.Gosched()        -> simrt.Gosched()
 //  5. for k, v := range map    -> iteration over simrt.RangeKeys (seeded order)
 //  6. map reads / writes       -> simrt.MR / simrt.MW probes (happens-before race probe)
@@ -730,26 +731,38 @@ func (r *rewriter) ifStmt(s *ast.IfStmt, label *ast.Ident) []ast.Stmt {
 	return []ast.Stmt{labeled(label, s)}
 }
 
+// selectStmt replaces a select statement by a call to simrt.Select (which tries the clauses
+// in an order drawn from the choice stream, so the runtime's random pick among several
+// ready clauses becomes a recorded decision) and a switch over the chosen clause:
+//
+//	{ c0 := ch0; c1 := ch1; v1 := val
+//	  i, rv, ok := simrt.Select(hasDefault, simrt.RecvCase(c0), simrt.SendCase(c1, v1))
+//	  _, _ = rv, ok
+//	  switch i { case 0: x := simrt.Elem(c0, rv); ...body  case 1: ...  default: ... } }
 func (r *rewriter) selectStmt(s *ast.SelectStmt, label *ast.Ident) []ast.Stmt {
 	r.needSimrt = true
 	var pre []ast.Stmt
-	var chans []ast.Expr
+	var cases []ast.Expr
 	hasDefault := false
-	bind := func(e ast.Expr) ast.Expr {
-		c := r.name("c")
-		pre = append(pre, define(c, e))
-		chans = append(chans, ast.NewIdent(c.Name))
-		return ast.NewIdent(c.Name)
-	}
+	iName, rvName, okName := r.name("i"), r.name("rv"), r.name("ok")
+	sw := &ast.SwitchStmt{Tag: ast.NewIdent(iName.Name), Body: &ast.BlockStmt{}}
+	idx := 0
 	for _, c := range s.Body.List {
 		cc := c.(*ast.CommClause)
+		var head []ast.Stmt
+		clause := &ast.CaseClause{}
 		switch comm := cc.Comm.(type) {
 		case nil:
 			hasDefault = true
+			clause.List = nil // default
 		case *ast.SendStmt:
 			r.exprs(comm.Chan, comm.Value)
-			comm.Chan = bind(comm.Chan)
+			cn, vn := r.name("c"), r.name("v")
+			pre = append(pre, define(cn, comm.Chan), define(vn, comm.Value))
+			cases = append(cases, call(simrtSel("SendCase"), ast.NewIdent(cn.Name), ast.NewIdent(vn.Name)))
 			r.handled[comm] = true
+			clause.List = []ast.Expr{intLit(idx)}
+			idx++
 		default:
 			u := simpleRecv(comm)
 			if u == nil {
@@ -757,22 +770,43 @@ func (r *rewriter) selectStmt(s *ast.SelectStmt, label *ast.Ident) []ast.Stmt {
 				continue
 			}
 			r.exprs(u.X)
-			u.X = bind(u.X)
+			cn := r.name("c")
+			pre = append(pre, define(cn, u.X))
+			cases = append(cases, call(simrtSel("RecvCase"), ast.NewIdent(cn.Name)))
 			r.handled[u] = true
+			if as, ok := comm.(*ast.AssignStmt); ok {
+				elem := call(simrtSel("Elem"), ast.NewIdent(cn.Name), ast.NewIdent(rvName.Name))
+				if !isBlank(as.Lhs[0]) {
+					head = append(head, &ast.AssignStmt{Lhs: []ast.Expr{as.Lhs[0]}, Tok: as.Tok, Rhs: []ast.Expr{elem}})
+				}
+				if len(as.Lhs) == 2 && !isBlank(as.Lhs[1]) {
+					head = append(head, &ast.AssignStmt{Lhs: []ast.Expr{as.Lhs[1]}, Tok: as.Tok, Rhs: []ast.Expr{ast.NewIdent(okName.Name)}})
+				}
+				if as.Tok == token.DEFINE {
+					// a variable the body never reads would not compile as a separate definition
+					for _, l := range as.Lhs {
+						if !isBlank(l) {
+							head = append(head, &ast.AssignStmt{Lhs: []ast.Expr{ast.NewIdent("_")}, Tok: token.ASSIGN, Rhs: []ast.Expr{ast.NewIdent(l.(*ast.Ident).Name)}})
+						}
+					}
+				}
+			}
+			clause.List = []ast.Expr{intLit(idx)}
+			idx++
 		}
+		clause.Body = append(head, r.stmts(cc.Body, nil)...)
+		sw.Body.List = append(sw.Body.List, clause)
 	}
-	h := r.name("h")
-	fn := "Pre"
+	hd := "false"
 	if hasDefault {
-		fn = "PreNB"
+		hd = "true"
 	}
-	pre = append(pre, define(h, call(simrtSel(fn), chans...)))
-	for _, c := range s.Body.List {
-		cc := c.(*ast.CommClause)
-		post := &ast.ExprStmt{X: call(simrtSel("Post"), ast.NewIdent(h.Name))}
-		cc.Body = r.stmts(cc.Body, post)
-	}
-	return append(pre, labeled(label, s))
+	args := append([]ast.Expr{ast.NewIdent(hd)}, cases...)
+	pre = append(pre,
+		&ast.AssignStmt{Lhs: []ast.Expr{iName, rvName, okName}, Tok: token.DEFINE, Rhs: []ast.Expr{call(simrtSel("Select"), args...)}},
+		&ast.AssignStmt{Lhs: []ast.Expr{ast.NewIdent("_"), ast.NewIdent("_")}, Tok: token.ASSIGN, Rhs: []ast.Expr{ast.NewIdent(rvName.Name), ast.NewIdent(okName.Name)}},
+	)
+	return []ast.Stmt{&ast.BlockStmt{List: append(pre, labeled(label, sw))}}
 }
 
 func (r *rewriter) goStmt(s *ast.GoStmt) []ast.Stmt {
